@@ -1104,6 +1104,25 @@ impl<'a> Type<'a> {
             type_space,
             type_entry,
         } = self;
+
+        // String newtypes with length or pattern constraints get FromStr,
+        // TryFrom, and Deserialize impls, but no Display impl of their own.
+        // Internally they count as displayable because they deref to String
+        // (which is all that the generated Display impls of newtypes and
+        // untagged enums that wrap them need), but a consumer asking whether
+        // the type satisfies a `Display` bound must be told that it does not.
+        if impl_name == TypeSpaceImpl::Display
+            && matches!(
+                &type_entry.details,
+                TypeEntryDetails::Newtype(TypeEntryNewtype {
+                    constraints: type_entry::TypeEntryNewtypeConstraints::String { .. },
+                    ..
+                })
+            )
+        {
+            return false;
+        }
+
         type_entry.has_impl(type_space, impl_name)
     }
 
